@@ -917,6 +917,14 @@ impl<'p, C: SimCfg> World<'p, C> {
         if nremote_eps == 0 && sizes.outgoing_local_input_entries > 0 {
             bad.push(format!("outgoing_local_inputs holds {} entries although there is no remote", sizes.outgoing_local_input_entries));
         }
+        // queued outgoing local inputs: with equal delays a frame is complete as soon as it is queued
+        // and leaves at once; with run-time delay changes at most the spread of the delays (0..=6)
+        // plus the fills of one increase can wait
+        let has_delay_calls = self.plan.api.iter().any(|a| matches!(a.call, Api::SetDelay { .. }));
+        let out_bound = if has_delay_calls { 16 } else { 1 };
+        if sizes.outgoing_local_input_frames > out_bound {
+            bad.push(format!("outgoing_local_inputs holds {} frames ({} entries); bound for this configuration: {out_bound}", sizes.outgoing_local_input_frames, sizes.outgoing_local_input_entries));
+        }
         if sizes.local_checksum_history > 33 {
             bad.push(format!("local checksum history holds {} entries", sizes.local_checksum_history));
         }
@@ -1684,6 +1692,29 @@ impl<'p, C: SimCfg> World<'p, C> {
                                 self.violate("c05.spectator_lagging", i, g, format!("spectator node {i} is still {fb} frames behind its host {} ms after the last fault (max_frames_behind {max_behind}, catchup_speed {catchup})", (self.now - lv.heal_us) / 1000));
                             }
                         }
+                    }
+                }
+            }
+            // C11: after the quiet tail nothing may be stranded in the outgoing buffer beyond the
+            // frames that are legitimately incomplete (the spread between the local players' delays)
+            if plan.api.iter().any(|a| matches!(a.call, Api::SetDelay { .. })) && plan.oracle.liveness.is_some() {
+                for i in plan.peers() {
+                    if !self.nodes[i].alive {
+                        continue;
+                    }
+                    let Sess::Peer(ss) = &self.nodes[i].sess else { continue };
+                    let sizes = ss.verif_buffer_sizes();
+                    let delays: Vec<usize> = self.nodes[i].locals.iter().filter_map(|l| self.models[*l].as_ref().map(|m| m.delay)).collect();
+                    let spread = delays.iter().max().copied().unwrap_or(0) - delays.iter().min().copied().unwrap_or(0);
+                    let g = self.nodes[i].game.g;
+                    *self.probes.extra.entry("outgoing_buffers_checked_after_quiet_tail").or_insert(0) += 1;
+                    if sizes.outgoing_local_input_frames > spread + 1 {
+                        self.violate(
+                            "c11.inputs_stranded",
+                            i,
+                            g,
+                            format!("node {i}: {} frames ({} entries) are still queued for sending at the end of a quiet period although the local delays differ by only {spread}", sizes.outgoing_local_input_frames, sizes.outgoing_local_input_entries),
+                        );
                     }
                 }
             }
